@@ -361,7 +361,7 @@ def oracle_C04(cmds, impl, model, stats: Stats):
             first = field(il, "first")
             curk = c[4][0]
             stats.note(cmds[k], first != "-", "pair:join>" + curk, "moved" if first != "-" else "refused")
-            m = re.match(r"ok first=(\S+) second=(.*) done=(\S) cur=(.*?)(?: wf=(\S))?$", il)
+            m = re.match(r"ok first=(\S+) second=(.*) done=(\S) cur=(.*?)(?: wf=(\S))?(?: ja=\S+ jb=\S+ la=\S+ lb=\S+)?$", il)
             if m:
                 _, second, _, cur, wf = m.groups()
                 if first == "-" and second != cur:
@@ -371,6 +371,19 @@ def oracle_C04(cmds, impl, model, stats: Stats):
                     out.append(Violation("C04", f"commuted-operations-ill-formed:join>{curk}",
                                          f"{cmds[k]}: the reported first (the join) or second operation is not "
                                          "well-formed on the relation it would be applied to"))
+            # the property itself, evaluated on the implementation's rows (a join defines no order: multisets)
+            ja, jb, la, lb = (field(il, x) for x in ("ja", "jb", "la", "lb"))
+            if first != "-" and ja is not None:
+                if ja.startswith("[!"):
+                    out.append(Violation("C04", f"commuted-operations-fail:join>{curk}", f"{cmds[k]}: {ja}"))
+                elif ja != jb:
+                    out.append(Violation("C04", f"join-commutation-changes-rows:join>{curk}",
+                                         f"{cmds[k]}: (target on the left) existing;join gives {ja}, "
+                                         f"join;second gives {jb}"))
+                elif la != lb:
+                    out.append(Violation("C04", f"join-commutation-changes-rows:join>{curk}",
+                                         f"{cmds[k]}: (fixed relation on the left) existing;join gives {la}, "
+                                         f"join;second gives {lb}"))
         elif c[0] == "commutesem":
             il, ml = impl[k], model[k]
             if not il.startswith("ok a="):
